@@ -140,6 +140,39 @@ def admissible(rules) -> bool:
             return any(valueless(x) for x in e[1])
         return False
 
+    def maybe_valueless(e, seen=()):
+        # can succeed without contributing a value (a skipped optional, a void, ...)
+        k = e[0]
+        if k in ('void', 'cut', 'eof', 'and', 'not', 'fail', 'skipgrp', 'opt'):
+            return True
+        if k == 'call':
+            return e[1] in g.rules and e[1] not in seen and maybe_valueless(g.rules[e[1]], seen + (e[1],))
+        if k == 'grp':
+            return maybe_valueless(e[1], seen)
+        if k == 'seq':
+            return all(maybe_valueless(x, seen) for x in e[1])
+        if k == 'alt':
+            return any(maybe_valueless(x, seen) for x in e[1])
+        return False
+
+    def has_override(e):
+        if isinstance(e, (tuple, list)):
+            if len(e) and e[0] in ('ovr', 'ovrl'):
+                return True
+            return any(has_override(x) for x in e if isinstance(x, (tuple, list)))
+        return False
+
+    def has_valueless_part(e):
+        # a value-less element inside the operand of a name/override (x=(() r)): the model keeps () there, see known finding F20
+        k = e[0]
+        if k == 'grp':
+            return has_valueless_part(e[1])
+        if k == 'seq':
+            return any(valueless(x) or has_valueless_part(x) for x in e[1])
+        if k == 'alt':
+            return any(valueless(x) or has_valueless_part(x) for x in e[1])
+        return False
+
     def ok(e, top=False):
         k = e[0]
         if k in ('rep', 'rep1'):
@@ -152,9 +185,11 @@ def admissible(rules) -> bool:
             return ok(e[1]) and ok(e[2])
         if k == 'seq':
             for x in e[1]:
-                if x[0] == 'call' and valueless(x):
+                if x[0] == 'call' and (valueless(x) or maybe_valueless(x)):
                     return False
-                if x[0] in ('grp', 'opt') and x[1][0] == 'call' and valueless(x[1]):
+                if x[0] in ('grp', 'opt') and x[1][0] == 'call' and (valueless(x[1]) or maybe_valueless(x[1])):
+                    return False
+                if _has_call(x) and x[0] in ('grp', 'alt') and maybe_valueless(x):
                     return False
             return all(ok(x) for x in e[1])
         if k == 'alt':
@@ -162,9 +197,9 @@ def admissible(rules) -> bool:
         if k in ('grp', 'opt', 'and', 'not', 'skipto', 'skipgrp'):
             return ok(e[1])
         if k in ('named', 'namedl'):
-            return ok(e[2]) and not valueless(e[2])
+            return ok(e[2]) and not valueless(e[2]) and not has_valueless_part(e[2]) and not has_override(e[2]) and not (e[2][0] == 'call' and maybe_valueless(e[2]))
         if k in ('ovr', 'ovrl'):
-            return ok(e[1]) and not valueless(e[1])
+            return ok(e[1]) and not valueless(e[1]) and not has_valueless_part(e[1]) and not has_override(e[1]) and not (e[1][0] == 'call' and maybe_valueless(e[1]))
         if k == 'skipto' and g.nullable(e[1]):
             return False
         return True
@@ -181,22 +216,34 @@ def admissible(rules) -> bool:
     return True
 
 
+def _has_call(e):
+    if isinstance(e, (tuple, list)):
+        if len(e) and e[0] == 'call':
+            return True
+        return any(_has_call(x) for x in e if isinstance(x, (tuple, list)))
+    return False
+
+
 def enumerated(seed: int, count: int, depth: int = 2):
-    """A seeded slice of the skeleton enumeration: start rule of the given depth over leaves + call to one helper rule."""
+    """A seeded slice of the skeleton enumeration: a start rule of the given depth that CALLS one helper rule (lower- or upper-case name)."""
     from .refpeg import render_grammar
     rng = random.Random(seed)
     helper_bodies = [e for e in enum_exprs(1, LEAVES[:5]) if e[0] not in ('and', 'not')]
     out, seen = [], set()
-    leaves = LEAVES + [C('r')]
+    leaves = LEAVES + [C('r'), C('r')]
     pool1 = list(enum_exprs(1, leaves))
+    with_call = [e for e in pool1 if _has_call(e)]
     tries = 0
-    while len(out) < count and tries < count * 200:
+    while len(out) < count and tries < count * 400:
         tries += 1
         b = rng.choice(BINARY + UNARY)
         if b in UNARY:
-            e = b(_term(rng.choice(pool1)))
+            e = b(_term(rng.choice(with_call)))
         else:
-            e = b(_term(rng.choice(pool1)), _term(rng.choice(pool1)))
+            x, y = rng.choice(with_call), rng.choice(pool1)
+            if rng.random() < 0.5:
+                x, y = y, x
+            e = b(_term(x), _term(y))
         if rng.random() < 0.5:
             e = S(e, rng.choice([T('a'), T('b'), EOF_, OPT(T('a'))]))
         hname = rng.choice(['r', 'r', 'R'])
